@@ -3,6 +3,8 @@
 Streams (real pydl code next to the Lean model lean/PydlVerif/Model/IterFit.lean):
   iterfit   iterfit(x, y, invvar, upper, lower, maxiter, nord, <breakpoint option>) in the caller's order:
             breakpoints bit-exact, breakpoint mask and outmask exact, coefficients within tolerance
+  full      (c10_full.py) the full call next to IterFit.iterfitFull: requiren, oldset histories, groupbadpix, "at most one good point left"
+  x2        (c10_x2.py) iterfit(x2=, npoly=) next to IterFit.iterfit2 (2-D fit of C09), oracle over the tensor basis
 Oracle (no pydl fit code, no model): the documented procedure re-implemented with scipy.interpolate.BSpline.design_matrix
 + numpy.linalg.lstsq + a direct rejection rule (fit - reject beyond lower/upper sigma - refit, until the mask no longer
 changes or maxiter+1 passes were made); every permutation of small data sets / random permutations of larger ones;
@@ -25,16 +27,30 @@ THEOREMS = [P + t for t in (
     # extension round: tied abscissae, clear outliers
     'djsReject_equiv', 'normalSystem_equiv', 'action_rowinv', 'fit_same', 'fit_inv', 'fitEquiv_sorted', 'goodx_eq', 'iterBody_equiv',
     'iterLoop_equiv', 'iterCore_equiv', 'iterCore_perm_ties', 'iterfit_perm_ties',
-    'clear_outlier_rejected', 'false_stays_false', 'clear_outlier_rejected_final')]
+    'clear_outlier_rejected', 'false_stays_false', 'clear_outlier_rejected_final',
+    # second extension round: the full call (requiren, oldset, groupbadpix, at most one good point left)
+    'rejectCall_eq', 'groupbadpix_irrelevant', 'maxrej_would_not_matter', 'iterBodyFull_spec', 'iterBodyFull_mask_le',
+    'iterLoopFull_mask_le', 'iterCoreFull_mask', 'iterBodyFull_none', 'iterLoopFull_none', 'iterCoreFull_none',
+    'iterfitFull_eq_iterfit', 'nonpositive_never_used_full', 'iterfitFull_perm',
+    'fit_keeps', 'iterBodyFull_keeps', 'iterLoopFull_keeps', 'iterCoreFull_oldset', 'oldset_reuses_breakpoints',
+    'setFalse_le', 'requirenWalk_le', 'iterfitFull_perm_ties_partial',
+    # ... the second variable x2 (2-D fit)
+    'iterBody2_spec', 'iterBody2_mask_le', 'iterLoop2_mask_le', 'iterCore2_mask', 'nonpositive_never_used_x2',
+    'lmin_spec', 'lmax_spec', 'lmin_perm', 'lmax_perm', 'iterfit2_perm')]
 RULE = ('cases = (n = 4..150 abscissae in caller order: sorted / reversed / shuffled, distinct or with ties) x (smooth signal + noise) x '
         '(0..k injected outliers of 20..300 sigma) x (invvar: constant / varying, with zero and negative entries) x (order 1..5) x '
         '(bkspace / nbkpts / everyn / explicit bkpt) x (lower, upper in {2.5, 3, 5, 10, None}) x (maxiter 0, 1, 2, 3, 10, 20); all '
         'permutations of data sets with n <= 5 (quick) / 6 (thorough), random permutations above. A case is non-trivial when the '
-        'first fit is made; distinct = distinct case payloads')
-TRUSTED = ['hand-written model lean/PydlVerif/Model/IterFit.lean (on the C08/C09/C17 models) tied to the code by the I/O correspondence of this run',
+        'first fit is made; distinct = distinct case payloads. Second extension round, stream full: the same data x requiren in {1,2,3,5,8} '
+        '(half with breakpoint intervals of about the point spacing) x groupbadpix; degenerate cases (limits 0/0, or one good point with nord 1); '
+        'oldset histories: iterfit on A, then 1-2 calls iterfit(oldset=object) on other data rescaled into the old breakpoint range (8 % with '
+        'no good point in the last step). Stream x2: n 20..90, npoly 1..3, x2 uniform on 3 ranges (6 % constant), y scaled linearly in x2')
+TRUSTED = ['hand-written models lean/PydlVerif/Model/IterFit.lean, Model/IterFit2.lean (on the C08/C09/C17 models) tied to the code by the I/O correspondence of this run',
            'np.argsort returns a sorting permutation (handed to the model as a parameter); LAPACK kernels as in C09 (contract)',
            'scipy design_matrix + numpy lstsq as the independent oracle; the constructor of the breakpoints is the one verified by C08']
-ASSUMPTIONS = ['invvar given (the invvar=None default is compared with the explicit 1/variance call), x2=None, groupbadpix=False, no requiren/oldset/fullbkpt',
+ASSUMPTIONS = ['invvar given (the invvar=None default is compared with the explicit 1/variance call); first model iterfit: x2=None, groupbadpix=False, no requiren/oldset; '
+               'full model iterfitFull: requiren / oldset / groupbadpix / the branch "at most one good point left"; iterfit2: x2 with npoly (not combined with requiren/oldset); '
+               'fullbkpt is refused by the code itself; oldset data are generated inside the range of the old breakpoints',
                'at least nord (and at least 2) points of positive weight and a fit that exists: when iterfit gives up (fewer good points than nord, '
                'fit status -2) it returns the initial all-True mask - outside the statement, counted, not judged',
                'a residual within 1e-6 (relative) of a rejection limit makes the case "near-threshold": counted, not judged',
@@ -97,16 +113,18 @@ class Degenerate(Exception):
     pass
 
 
-def procedure(x, y, iv, t, k, lower, upper, maxiter):
+def procedure(x, y, iv, t, k, lower, upper, maxiter, A=None):
     """fit - reject beyond lower/upper sigma - refit, until nothing changes or maxiter+1 passes; dense lstsq.
     Returns coefficients, mask (caller order), smallest relative distance of a residual from a limit, cond, passes."""
     # rows of points that can never be used stay zero (they may lie outside the breakpoint range, which is built
     # from the good points only); good points beyond a float32-rounded end knot get the polynomial extrapolation
     from scipy.interpolate import BSpline
-    A = np.zeros((len(x), len(t) - k))
-    g = iv > 0
-    tt = np.asarray(t, dtype='d')
-    A[g] = BSpline.design_matrix(-x[g], -tt[::-1], k - 1, extrapolate=True).toarray()[:, ::-1]
+    if A is None:
+        A = np.zeros((len(x), len(t) - k))
+        g = iv > 0
+        tt = np.asarray(t, dtype='d')
+        A[g] = BSpline.design_matrix(-x[g], -tt[::-1], k - 1, extrapolate=True).toarray()[:, ::-1]
+    # (A given: the design matrix of another basis over the same points - the tensor basis of the 2-D fit, c10_x2.py)
     mask = iv > 0
     margin = np.inf
     cond = 1.0
@@ -432,6 +450,12 @@ def run(ctx):
                             'sticky': False, 'grow': 0})
     _c17._reject(ctx, sub)
     ctx.count('reject-rule:exact-grid-cases', len(sub))
+    # second extension round: the full call (requiren / oldset histories / groupbadpix / at most one good point left)
+    from harness.props import c10_full
+    c10_full.run_full(ctx)
+    # ... and the call with the second variable x2 (2-D fit through iterfit)
+    from harness.props import c10_x2
+    c10_x2.run_x2(ctx)
     if ctx.disagreements:
         n0 = len(cases)
         more = [gen_case(rng) for _ in range(60)]
@@ -443,6 +467,14 @@ def run(ctx):
 
 def replay(ctx, case):
     core.audit(ctx, LEAN_MODULES, THEOREMS)
+    if case.get('stream') == 'full':
+        from harness.props import c10_full
+        c10_full.replay_full(ctx, case)
+        return
+    if case.get('stream') == 'x2':
+        from harness.props import c10_x2
+        c10_x2.replay_x2(ctx, case)
+        return
     case = {k: v for k, v in case.items() if k != 's'}
     run_cases(ctx, [case])
 
@@ -465,13 +497,30 @@ LEVEL_TEXT = ('Machine-checked Lean 4 theorems over an executable model of iterf
               'ends exactly when the last fit succeeded and the mask did not change, or after maxiter+1 passes. Tied to the repository on every '
               'run by I/O correspondence (breakpoints bit-exact, masks exact, coefficients within tolerance) and by an independent oracle: the '
               'documented procedure re-implemented with scipy design_matrix + numpy lstsq + a direct rejection rule, all permutations of small data '
-              'sets and random permutations of larger ones, altered (x, y) at non-positively weighted points, maxiter=0, invvar=None.')
+              'sets and random permutations of larger ones, altered (x, y) at non-positively weighted points, maxiter=0, invvar=None. '
+              'Second extension round - the FULL call iterfitFull (requiren walk, oldset, groupbadpix, the branch "at most one good point left") and '
+              'iterfit2 (x2, npoly): iterfitFull_eq_iterfit - without requiren/oldset the full model returns what iterfit returns, so all theorems '
+              'above transfer; iterfitFull_perm / iterfit2_perm - for distinct abscissae and any sorting permutations, permuting (x, y, invvar[, x2]) '
+              'together leaves the object (2-D: incl. xmin, xmax, the (npoly, nc) coefficients; lmin_perm / lmax_perm) unchanged and permutes the mask, '
+              'for every requiren / oldset / groupbadpix (iterfitFull_perm_ties_partial: with tied abscissae too, as long as the first model answers, i.e. '
+              'without requiren/oldset and outside the degenerate branch); oldset_reuses_breakpoints - the object returned for oldset=b has the '
+              'breakpoints and the order of b; requirenWalk_le - the requiren block only switches breakpoints off; nonpositive_never_used_full / _x2 and iterLoopFull_mask_le / iterLoop2_mask_le - masks only '
+              'shrink, invvar not > 0 => False; groupbadpix_irrelevant and maxrej_would_not_matter (C17 maxrej_never_limits) - the result does not '
+              'depend on groupbadpix, and no maxrej could limit the rejection on iterfit\'s 1-D arrays. Streams full (requiren, degenerate, oldset '
+              'histories with the object state sent to the model) and x2, with the documented procedure on the old breakpoints / over the tensor basis '
+              'B_j(x)*P_l(x2) as the independent oracle.')
 LEVEL_NOTE = ('iterfit_perm_ties is an exact-arithmetic statement (the sums of fit are order-independent over a field); in floating point tied '
               'points enter the sums in another order, so the harness counts tie cases (perm:ties-agree / perm:ties-differ) without judging a '
               'difference. "Clear outlier" is proved per pass against the curve of that pass (no statement that an injected k-sigma outlier exceeds '
-              'the limit of the first fit - that depends on the data; the oracle checks the whole procedure on the real code). groupbadpix/maxrej, '
-              'x2, requiren, oldset and the branch "at most one good point left" (the code stores the int 0 as coefficients; the model refuses) are '
-              'outside the model; when iterfit gives up (fewer good points than nord, fit status -2) it returns the initial all-True mask - '
+              'the limit of the first fit - that depends on the data; the oracle checks the whole procedure on the real code). Since the second extension round '
+              'groupbadpix, requiren, oldset and the branch "at most one good point left" (the code stores the int 0 as coefficients: flag cz) are inside the '
+              'model (iterfitFull) and x2 / npoly is modelled by iterfit2 on the 2-D fit of C09; maxrej cannot be passed through iterfit (TypeError of '
+              'the bspline constructor, observed every run). iterfitFull_perm and iterfit2_perm need distinct abscissae: with requiren the statement is '
+              'false for tied abscissae (the walk leaves out the last sorted point; which of two tied points is last is up to argsort); for oldset / x2 '
+              'the tie version is not proved. Not judged in the new streams (counted): limits of exactly 0, and fits on singular systems after heavy '
+              'rejection / dropped breakpoints (status -1/-2 reached on one side only, class "marginal"; more than 3 % of them is a disagreement). '
+              'requiren and oldset are not in the property statement: their oracle is the permutation / non-positive-weight / procedure-on-the-old-'
+              'breakpoints check, requiren itself is tied to the code by correspondence only. When iterfit gives up (fewer good points than nord, fit status -2) it returns the initial all-True mask - '
               'excluded from nonpositive_never_used and from the oracle. The optimality statement rests on the C09 theorems (fit_is_optimum / '
               'fit_optimum_sorted: LAPACK by contract only; the Rows hypothesis is discharged for the sorted work arrays iterfit hands to fit). '
               'Theorems are over exact ordered fields; residuals within 1e-6 of a limit and ill-conditioned fits are not judged.')
